@@ -115,7 +115,94 @@ def run(ctx, deep=False):
                           kind="history", monitor="c13", script=script, gen=gen, implementation_output=got, spec_verdict=exp)
         if meta:
             ctx.sample({"gen": gen, "stream": meta[0][0].hex(), "delivered": ref.get(meta[0][0], [])[:2]})
+    two_consoles(ctx, thorough)
     ctx.assumptions += ["loop turns between segments are bounded by 60 in the recorded runs; the theorem covers every segmentation"]
+
+
+def _two_consoles(gen, stream_a, cuts, frame_b, turns):
+    """two clients of the same generation in one process (a home with two consoles): A's stream arrives in segments, B's whole frame
+    arrives between A's segments -> (messages delivered to A, messages delivered to B)"""
+    import asyncio
+    import importlib
+    import logging
+    import vloop
+    S = importlib.import_module("pyairtouch.comms.socket")
+    R = importlib.import_module("pyairtouch.at%d.comms.registry" % gen)
+    from canon import canon
+    logging.getLogger("pyairtouch").setLevel(logging.CRITICAL)
+    loop = vloop.VLoop()
+    net = vloop.Net(loop)
+    loop.net = net
+    net.mode = "accept"
+    got = {"a": [], "b": []}
+    socks = {}
+    for name in ("a", "b"):
+        sk = S.AirTouchSocket(loop=loop, host="console-%s.local" % name, port=9004 if gen == 4 else 9005, registry=R.INSTANCE)
+
+        async def on_msg(header, message, name=name):
+            got[name].append(canon(message))
+        sk.subscribe_on_message_received(on_msg)
+        socks[name] = sk
+
+    async def main():
+        await socks["a"].open_socket()
+        await asyncio.sleep(4 * vloop.TICK)
+        await socks["b"].open_socket()
+        await asyncio.sleep(4 * vloop.TICK)
+        ca, cb = net.conns[0], net.conns[1]
+        segs = _segments(stream_a, cuts)
+        for i, seg in enumerate(segs):
+            ca.peer_send(seg)
+            for _ in range(turns):
+                await asyncio.sleep(0)
+            if i + 1 < len(segs):
+                cb.peer_send(frame_b)
+                for _ in range(turns):
+                    await asyncio.sleep(0)
+        await asyncio.sleep(8 * vloop.TICK)
+        for sk in socks.values():
+            await sk.close()
+    asyncio.set_event_loop(loop)
+    try:
+        loop.run_until_complete(main())
+    finally:
+        asyncio.set_event_loop(None)
+        loop.close()
+    return got["a"], got["b"]
+
+
+def two_consoles(ctx, thorough):
+    """reception by one client is independent of how ITS stream is segmented also when a second client of the same generation (same
+    process-wide registry: decoders, checksum calculator, header codec) receives frames in the gaps"""
+    import frame_try
+    rng = ctx.rng
+    for gen in (4, 5):
+        real = frame_try.Real(gen)
+        raw = frame_try.gen_cases(real, rng, 6, ctx)
+        frames = [bytes(c[1]) for c in raw if str(c[0]).startswith("sent") and 10 <= len(c[1]) <= 90]
+        rng.shuffle(frames)
+        worst = None
+        for k in range(min(len(frames) - 1, 24 if thorough else 8)):
+            a, b = frames[k] + frames[(k + 3) % len(frames)], frames[k + 1]
+            ref_a, ref_b = _two_consoles(gen, a, [], b, 1)
+            cuts_list = [[c] for c in range(1, len(a))] if len(a) <= 70 or thorough else [[c] for c in sorted(rng.sample(range(1, len(a)), 40))]
+            cuts_list += [sorted(rng.sample(range(1, len(a)), 3)) for _ in range(6)]
+            for cuts in cuts_list:
+                got_a, got_b = _two_consoles(gen, a, cuts, b, rng.choice([1, 2, 4]))
+                ctx.case(("two-consoles", gen, a, tuple(cuts)), nontrivial=True)
+                ctx.count("two-consoles:cuts:%d" % len(cuts))
+                why = None
+                if got_a != ref_a:
+                    why = "client A was delivered %d message(s), unsegmented %d" % (len(got_a), len(ref_a))
+                elif len(got_b) != len(cuts) * len(ref_b[:1]) and ref_b is not None and got_b and got_b[0] != (ref_b or got_b)[0]:
+                    why = "client B was delivered something else than its frame"
+                if why and (worst is None or len(a) < len(worst[0])):
+                    worst = (a, b, cuts, why)
+        if worst:
+            a, b, cuts, why = worst
+            ctx.violation("C13:%d:two-consoles" % gen, "two AirTouch %d clients in one process: A's stream %s cut at %s with B's frame %s arriving in the gaps: %s" % (
+                gen, a.hex(), cuts, b.hex(), why), kind="history", level="two-consoles", gen=gen, a=a.hex(), b=b.hex(), cuts=cuts,
+                implementation_output=why, spec_verdict="as unsegmented")
 
 
 def search(ctx):
@@ -124,6 +211,13 @@ def search(ctx):
 
 
 def replay(ctx, data):
+    if data.get("level") == "two-consoles":
+        a, b = bytes.fromhex(data["a"]), bytes.fromhex(data["b"])
+        ref = _two_consoles(data["gen"], a, [], b, 1)
+        got = _two_consoles(data["gen"], a, data["cuts"], b, 1)
+        print("unsegmented: A", ref[0])
+        print("cut at %s : A" % data["cuts"], got[0])
+        return 0 if got[0] == ref[0] else 1
     rr = sockcheck._run_one((data["script"], data.get("gen", 4)))
     print("delivered:", rr.get("delivered"))
     print("expected :", data.get("spec_verdict"))
